@@ -34,6 +34,46 @@ var c12Bodies = []string{
 	"commodity 1.000,00 EUR\n\n2001-01-01 shop  ; trip:rome\n    expenses:food  $5\n    assets:cash\n\n2001-01-01 shop  ; kind:y\n    expenses:food  $5\n    assets:cash\n",
 }
 
+// A second world ("fan"): the root has no directives of its own and gains or
+// loses two includes at once; the first of them (in path order) includes a
+// further file, the second includes nothing; the included files carry the
+// declarations.
+var c12FanIncludes = [][][]int{
+	{{}, {1, 2}, {2, 1}}, // main: none / a and b at once
+	{{3}, {}, {3}},       // a: includes c (variant 1: not)
+	{{}, {}, {3}},        // b: nothing (variant 2: includes c as well)
+	{{}, {}, {}},         // c
+}
+
+var c12FanBodies = [][]string{
+	{"; root without directives\n", "; root without directives\n\n2001-01-01 shop\n    expenses:food  $5\n    assets:cash\n", "; still none\n"},
+	{"account expenses:food\ncommodity 1.000,00 EUR\n\n2001-02-01 cafe\n    expenses:food  2 EUR\n    assets:cash\n", "account expenses:food\n", "commodity 1.000,00 EUR\n"},
+	{"commodity $1,000.00\n\n2001-03-01 shop  ; trip:rome\n    expenses:fuel  $7\n    assets:cash\n", "; b plain\n", "account assets:cash\n"},
+	{"account assets:bank\n\n2001-04-01 bank  ; kind:x\n    assets:bank  1 EUR\n    equity:x\n", "; c plain\n", "account assets:bank\n"},
+}
+
+func c12IncludesT(table, file, variant int) []int {
+	if table == 1 {
+		return c12FanIncludes[file][variant]
+	}
+	return c12Includes[file][variant]
+}
+
+func c12ContentT(table, nfiles, file, variant int) string {
+	if table == 0 {
+		return c12Content(nfiles, file, variant)
+	}
+	var b strings.Builder
+	for _, t := range c12FanIncludes[file][variant] {
+		if t < nfiles {
+			b.WriteString("include " + c12Names[t] + "\n")
+		}
+	}
+	b.WriteString("\n")
+	b.WriteString(c12FanBodies[file][variant])
+	return b.String()
+}
+
 func c12Content(nfiles, file, variant int) string {
 	var b strings.Builder
 	for _, t := range c12Includes[file][variant] {
@@ -57,6 +97,8 @@ type c12Case struct {
 	Ops      []c12Op `json:"ops"`
 	// ReadEachStep: the cached getters were called after every update
 	ReadEachStep bool `json:"getters_read_after_every_update,omitempty"`
+	// Table: 0 = the general include table, 1 = the "fan" world
+	Table int `json:"world_table,omitempty"`
 }
 
 // canonical view of a workspace
@@ -196,7 +238,7 @@ func c12Run(dir string, cs c12Case) (live, fresh c12View, liveW *workspace.Works
 func c12RunMode(dir string, cs c12Case, readEachStep bool) (live, fresh c12View, liveW *workspace.Workspace, disk []int) {
 	disk = make([]int, cs.NFiles)
 	for i := 0; i < cs.NFiles; i++ {
-		_ = os.WriteFile(filepath.Join(dir, c12Names[i]), []byte(c12Content(cs.NFiles, i, 0)), 0o644)
+		_ = os.WriteFile(filepath.Join(dir, c12Names[i]), []byte(c12ContentT(cs.Table, cs.NFiles, i, 0)), 0o644)
 	}
 	liveW = workspace.NewWorkspace(dir, include.NewLoader())
 	_ = liveW.Initialize()
@@ -210,7 +252,7 @@ func c12RunMode(dir string, cs c12Case, readEachStep bool) (live, fresh c12View,
 	read()
 	for _, op := range cs.Ops {
 		disk[op.File] = op.Variant
-		content := c12Content(cs.NFiles, op.File, op.Variant)
+		content := c12ContentT(cs.Table, cs.NFiles, op.File, op.Variant)
 		path := filepath.Join(dir, c12Names[op.File])
 		_ = os.WriteFile(path, []byte(content), 0o644)
 		liveW.UpdateFile(path, content)
@@ -235,7 +277,7 @@ func c12Compare(c *core.Ctx, dir string, cs c12Case, live, fresh c12View, disk [
 				prev = o.Variant
 			}
 		}
-		if fmt.Sprint(c12Includes[last.File][prev]) != fmt.Sprint(c12Includes[last.File][last.Variant]) {
+		if fmt.Sprint(c12IncludesT(cs.Table, last.File, prev)) != fmt.Sprint(c12IncludesT(cs.Table, last.File, last.Variant)) {
 			cause = "include list changed"
 		}
 	}
@@ -364,11 +406,11 @@ func checkC12(c *core.Ctx) {
 		c12Compare(c, dir, cs, live, fresh, disk)
 		return
 	}
-	type world struct{ nfiles, nvar int }
-	worlds := []world{{2, 3}, {3, 3}, {4, 3}}
+	type world struct{ nfiles, nvar, table int }
+	worlds := []world{{2, 3, 0}, {3, 3, 0}, {4, 3, 0}, {4, 3, 1}}
 	depth := 6
 	if c.Thorough() {
-		worlds = []world{{2, 4}, {3, 4}, {4, 4}, {5, 4}}
+		worlds = []world{{2, 4, 0}, {3, 4, 0}, {4, 4, 0}, {5, 4, 0}, {4, 3, 1}}
 		depth = 8
 	}
 	sampled := 0
@@ -386,7 +428,7 @@ func checkC12(c *core.Ctx) {
 			if c.NShards > 1 && path[0]%c.NShards != c.Shard {
 				return "", false
 			}
-			cs := c12Case{NFiles: w.nfiles, NVariant: w.nvar}
+			cs := c12Case{NFiles: w.nfiles, NVariant: w.nvar, Table: w.table}
 			for _, p := range path {
 				cs.Ops = append(cs.Ops, ops[p])
 			}
@@ -399,7 +441,7 @@ func checkC12(c *core.Ctx) {
 					prev = o.Variant
 				}
 			}
-			if fmt.Sprint(c12Includes[last.File][prev]) != fmt.Sprint(c12Includes[last.File][last.Variant]) {
+			if fmt.Sprint(c12IncludesT(cs.Table, last.File, prev)) != fmt.Sprint(c12IncludesT(cs.Table, last.File, last.Variant)) {
 				c.Res.Nontrivial++
 			}
 			good := c12Compare(c, dir, cs, live, fresh, disk)
@@ -417,7 +459,7 @@ func checkC12(c *core.Ctx) {
 		c.Res.States += st.States
 		c.Res.Transitions += st.Transitions
 		c.Res.Traces += st.Transitions
-		c.Bound(fmt.Sprintf("world %d files x %d variants", w.nfiles, w.nvar), fmt.Sprintf("all update sequences up to depth %d, sharded by first update", depth))
+		c.Bound(fmt.Sprintf("world %d files x %d variants, include table %d", w.nfiles, w.nvar, w.table), fmt.Sprintf("all update sequences up to depth %d, sharded by first update", depth))
 		c.Count(fmt.Sprintf("states_%dfiles", w.nfiles), st.States)
 		c.Count(fmt.Sprintf("transitions_%dfiles", w.nfiles), st.Transitions)
 		if st.Exhausted {
